@@ -189,6 +189,15 @@ func (p *Prog) factHolds(in ssa.Instruction, match func(g Guard) bool, depth int
 			if g.Pol {
 				outcome = 3
 			}
+		} else if ex, ok := g.Cond.(*ssa.Extract); ok && isBoolType(ex.Type()) {
+			// port, ok := t.announcePort(ipv6); if !ok { return }
+			if c, isC := ex.Tuple.(*ssa.Call); isC {
+				call, resIdx = c, ex.Index
+				outcome = 4
+				if g.Pol {
+					outcome = 3
+				}
+			}
 		} else if x, isNil, ok := nilFact(g); ok {
 			call, resIdx = callOfValue(x)
 			switch y := x.(type) {
@@ -274,4 +283,9 @@ func (p *Prog) factHolds(in ssa.Instruction, match func(g Guard) bool, depth int
 		}
 	}
 	return false
+}
+
+func isBoolType(t types.Type) bool {
+	b, ok := t.Underlying().(*types.Basic)
+	return ok && b.Info()&types.IsBoolean != 0
 }
